@@ -210,7 +210,12 @@ pub fn c01_case(c: &mut Ctx, r: &mut Rng, fam: Fam, rp: &RP, case: &Case) {
 }
 
 pub fn short(p: &Pkt) -> String {
-    let s = format!("{:?}", p);
+    // Debug-formatting a String that holds ill-formed UTF-8 (possible only if the decoder broke its
+    // own invariant) can panic inside std; never let a diagnostic take the monitor down.
+    let s = match guard(|| format!("{:?}", p)) {
+        Ok(s) => s,
+        Err(_) => format!("<{} packet whose Debug output panics: it holds an ill-formed String>", p.type_name()),
+    };
     if s.len() > 300 {
         format!("{}…({} chars)", s.chars().take(280).collect::<String>(), s.len())
     } else {
